@@ -13,7 +13,7 @@ BDD = ['add', 'sub', 'sll', 'srl', 'sra', 'slt', 'sltu', 'and', 'or', 'xor', 'id
 
 PROPS = {}
 
-HOOK_COMMITS = ['4fd9baa', 'bc45a72']
+HOOK_COMMITS = ['4fd9baa', 'bc45a72', 'bdce4be']
 
 NA_DFT = ('every clause is about the value of a polynomial product obtained through the DFT/NTT domain and about noise magnitudes: '
           'FFT64 is floating point (no f64 theory in Verus, CBMC did not finish one svp product at N=2), NTT120 is a chain of modular '
@@ -237,17 +237,18 @@ BOUNDED_EXPL = 'bounded symbolic execution of the real code under the stated sha
 
 PROPS['C14'] = dict(
     level='other',
-    technique='Kani bounded contract check of the real clear lookup-table path (lookup_table_set + lookup_table_rotate) against the indexing formula, every rotation index symbolic',
-    level_text='Bounded: N = 4, extension factor 1 and 2, table lengths 2 and 4, entries symbolic: for every rotation index t in [0, 2*N*ext) the constant coefficient equals +-f[floor((t+drift)/step)]*scale with the negacyclic sign. Complete in values and index, bounded in shape.',
-    level_note='Only the clear path on a marker module (coefficient-domain HAL ops); blind rotation under encryption (external products) is undecided; mod_switch_2n not covered.',
+    technique='Verus contract proof of the real lookup_table_rotate (extended-domain rotation == per-polynomial rotation + cyclic permutation, unbounded in N, extension factor and rotation index); Kani bounded contract check of the real clear path lookup_table_set + lookup_table_rotate against the indexing formula, every rotation index symbolic',
+    level_text='Mixed. Proved (unbounded): for every N >= 1, every extension factor, every k in [-2N*ext, 2^61] and every limb, lookup_table_rotate turns the extended polynomial P (coefficient m = coefficient m/ext of polynomial m%ext) into X^k * P in Z[X]/(X^(N*ext)+1), negacyclic sign included; no panic, no overflow, scratch of exactly vec_znx_rotate_assign_tmp_bytes suffices. Bounded (N = 4, extension factor 1, table lengths 2 and 4, entries symbolic): after lookup_table_set and a rotation by any index t in [0, 2N) the constant coefficient equals +-f[floor((t+drift)/step)]*scale with the negacyclic sign.',
+    level_note='lookup_table_set for extension factor > 1 is only covered through the rotation it ends with (CBMC does not finish the set path for ext >= 2); blind rotation under encryption (external products), mod_switch_2n and key distributions are undecided.',
     explanation=BOUNDED_EXPL,
-    units=[K('poulpy-bin-fhe', 'blind_rotation::lut::verif_kani', ['c14_lut_clear__n4_ext1_f4', 'c14_lut_clear__n4_ext1_f2'], cls='bounded', timeout=1500,
-             bound='N=4, ext=1, table length 4 / 2, base2k=4, k=3', functions=['LookupTableFactory::lookup_table_set', 'LookupTableFactory::lookup_table_rotate']),
-           K('poulpy-bin-fhe', 'blind_rotation::lut::verif_kani', ['c14_lut_clear__n2_ext2_f2'], cls='bounded', tier='thorough', timeout=2400,
-             bound='N=2, ext=2, table length 2')],
-    trusted_base=[FMT_STUB],
-    assumptions=['Module::new_marker: these routines use only coefficient-domain operations'],
-    remainder='blind rotation under an LWE ciphertext, mod_switch_2n, key distributions, limbs above the noise floor',
+    units=[V('lut', lemmas=['lemma_inter_rot', 'lemma_mod_scale', 'lemma_rot_no_min']),
+           K('poulpy-bin-fhe', 'blind_rotation::lut::verif_kani', ['c14_lut_clear__n4_ext1_f4', 'c14_lut_clear__n4_ext1_f2'], cls='bounded', timeout=1500,
+             bound='N=4, ext=1, table length 4 / 2, base2k=4, k=3', functions=['LookupTableFactory::lookup_table_set', 'LookupTableFactory::lookup_table_rotate'])],
+    trusted_base=VERUS_TRUST + [FMT_STUB, 'assumed std specifications of <[T]>::rotate_right / rotate_left (cyclic shift of the sequence)',
+                  'HAL contract of Module::vec_znx_rotate_assign as proved for the reference implementation in units vec_znx_ring / hal_glue (dispatch through the delegate macro is syntactic)',
+                  'ScratchOwned::alloc / borrow: every borrow hands out the whole arena'],
+    assumptions=['Module::new_marker: these routines use only coefficient-domain operations', 'no limb coefficient equals i64::MIN (tables are normalised digits)'],
+    remainder='blind rotation under an LWE ciphertext, mod_switch_2n, key distributions, limbs above the noise floor, lookup_table_set for ext >= 2',
 )
 
 PROPS['C19'] = dict(
